@@ -943,6 +943,8 @@ def emit_cases(seed, n, work, spelling=True, only_class=None, named_terms=False,
         env["EMIT_ALWAYS_SPELLED"] = "1"
     if same_names:
         env["EMIT_SAME_NAMES"] = "1"; env["EMIT_NAMED_TERMS"] = "1"
+    if os.environ.get("_EMIT_PID") in ("C09", "C10"):
+        env["EMIT_GIANT_LEXEME"] = "1"
     if os.environ.get("_EMIT_PID") == "C18":
         env["EMIT_LONG_NAMES"] = "1"
     if os.environ.get("_EMIT_PID") == "C10":
